@@ -11,7 +11,7 @@ Next == /\ l <= Len(Rec) /\ Rec[l].e = "Pkt"
         /\ LET ev == Rec[l]
                exp == PacketRows(ev.off, ev.rdh, ev.payload, ev.withData)
                expn == [i \in 1..Len(exp) |-> Norm(exp[i])]
-           IN IF expn = ev.rows THEN TRUE ELSE PrintT(<<"REJECT", l, "expected", expn, "observed", ev.rows>>) /\ FALSE
+           IN IF expn = ev.rows THEN TRUE ELSE PrintT("REJECT " \o ToJson([l |-> l, tag |-> "rows", expected |-> expn, observed |-> ev.rows])) /\ FALSE
         /\ l' = l + 1
 Spec == Init /\ [][Next]_l
 Accepted == IF TLCGet("stats").diameter - 1 = Len(Rec) THEN TRUE
